@@ -11,6 +11,14 @@ Definition run_strong (noisy : bool) (p : sparams) : sparams * nat (* trajectori
   let n := if noisy then requested else 1 in
   ({| num_traj := requested; traj_rows := n |}, n).
 
+(* ---- StrongSimParams with sample_layers: num_mid_measurements (constructor argument, rewritten by every run) ---- *)
+Record lparams := { sample_layers : bool; num_mid : nat }.
+(* _run_strong_sim: with sample_layers the labelled barriers of THIS circuit are counted and stored; the result arrays get
+   num_mid + 2 columns (initial, one per labelled barrier, final), without sample_layers one column *)
+Definition run_layers (labelled : nat) (p : lparams) : lparams * nat (* result columns allocated *) :=
+  if sample_layers p then ({| sample_layers := true; num_mid := labelled |}, labelled + 2) else (p, 1).
+Definition layers_history (h : list nat) (p : lparams) : lparams := fold_left (fun q labelled => fst (run_layers labelled q)) h p.
+
 (* ---- WeakSimParams: shots, measurements (each slot: None or the total count stored in that dict) ---- *)
 Record wparams := { shots : nat; meas : list (option nat) }.
 Definition set_nth_opt (l : list (option nat)) (i : nat) (v : nat) : list (option nat) :=
